@@ -21,7 +21,7 @@ RULE = (
     "message texts include the empty string and repeated texts; plain and callback delivery; 1..2 socket ids; in a third of the "
     "scenarios one endpoint closes a socket part-way and opens it again, possibly with the other delivery mode; an eighth of the scenarios use "
     "broadcast channels: every endpoint broadcasts 0..2 messages, receives what the others broadcast and may then drop its channel) plus a schedule = list of small ints choosing the next thread at every statement of the hub; Hypothesis draws both; "
-    "both tiers enumerate every single-preemption schedule of five fixed scripts and every excursion (another thread runs 1..10 statements, then the interrupted one goes on) of two of them; thorough also enumerates all schedules with <=3 preemptions for small two-endpoint scripts.  Non-trivial = >=1 "
+    "a late connect with a time limit between 0 and 5 s must succeed when the peer is already open; both tiers enumerate every single-preemption schedule of five fixed scripts and every excursion (another thread runs 1..10 statements, then the interrupted one goes on) of two of them; thorough also enumerates all schedules with <=3 preemptions for small two-endpoint scripts.  Non-trivial = >=1 "
     "preemption inside a hub method and >=2 messages sent; distinct by (scripts, schedule)"
 )
 ASSUMPTIONS = [
@@ -228,6 +228,10 @@ def run(scn) -> Dict[str, Any]:
             scripts[n] = [["bc_open", others, 0]] + [["bc_send", m, 0] for m in scn["sends"][n]] + [["bc_recv", None, 0]] * expect + ([["bc_close", None, 0]] if scn["close"].get(n) else [])
     elif scn["kind"] == "open-close":
         scripts = {"a": [["connect", "b", 0, "plain"], ["disconnect", "b", 0]], "b": [["connect", "a", 0, "plain"], ["send", "a", 0, "late"]]}
+    elif scn["kind"] == "late-connect-timeout":
+        # a starts first and waits for its peer; b then connects with a time limit (possibly shorter than one poll interval, or 0):
+        # a's socket is already open, so b's connect succeeds whatever the limit (sequential schedule only)
+        scripts = {"a": [["connect", "b", 0, "plain"], ["recv", "b", 0, False]], "b": [["connect", "a", 0, "plain", scn["timeout"]], ["send", "a", 0, "hello"]]}
     elif scn["kind"] == "late-open-close":
         # a starts first and polls; b arrives, sends and closes (possibly all inside one of a's poll sleeps)
         scripts = {"a": [["connect", "b", 0, "plain"], ["recv", "b", 0, False]], "b": [["connect", "a", 0, "plain"], ["send", "a", 0, "hello"], ["disconnect", "a", 0]]}
@@ -264,7 +268,12 @@ def run(scn) -> Dict[str, Any]:
                             old_socks.append(socks[key])
                         if op[3] == "plain":
                             ever_plain.add(key)
-                        socks[key] = cls(name, op[1], socket_id=op[2])
+                        ckw = {"timeout": op[4]} if len(op) > 4 and op[4] is not None else {}
+                        try:
+                            socks[key] = cls(name, op[1], socket_id=op[2], **ckw)
+                        except TimeoutError:
+                            log.append((name, "connect-timeout", op[1], op[2]))
+                            return
                         log.append((name, "connected", op[1], op[2]))
                     elif k == "send":
                         socks[key].send(op[3])
@@ -360,6 +369,14 @@ def run(scn) -> Dict[str, Any]:
             ev = [x for x in log if x[0] == "b"]
             if not any(x[1] == "connected" for x in ev):
                 raise Failure("connect-never-returns", case, f"b never connected although a had opened (and closed) its socket; log {log}")
+            return info
+        if scn["kind"] == "late-connect-timeout":
+            if any(x[1] == "connect-timeout" for x in log) or not any(x[0] == "b" and x[1] == "connected" for x in log):
+                raise Failure("connect-times-out", case, f"b's connect (time limit {scn['timeout']}) did not succeed although a's socket was already open; log {log}")
+            got = [x[4] for x in log if x[0] == "a" and x[1] == "recv"]
+            if got != ["hello"]:
+                raise Failure("delivery:lost", case, f"b sent 'hello' but a received {got}; log {log}")
+            info["sent"] = 2
             return info
         if scn["kind"] == "late-open-close":
             if not any(x[0] == "a" and x[1] == "connected" for x in log):
@@ -530,6 +547,15 @@ def shard(ctx: Ctx) -> None:
                         stt.rejected["inconclusive:" + info["inconclusive"].split(":")[0]] += 1
                 except Failure as f:
                     ctx.fail(f)
+    for tmo in (0.0, 0.01, 0.05, 0.25, 0.35, 5.0):
+        scn_t = {"kind": "late-connect-timeout", "timeout": tmo, "schedule": []}
+        if ctx.shard == 0:
+            try:
+                info_t = run(scn_t)
+                if not info_t.get("inconclusive"):
+                    stt.case(scn_t, True, ["connect-with-time-limit"])
+            except Failure as f:
+                ctx.fail(f)
     stt.exhaustive_domains["five fixed scripts x every single-preemption schedule"] = n_sys
     # ... and every short excursion (both tiers): at one position another thread runs for 1..10 statements, then the
     # interrupted thread goes on -- what it takes to land one operation between two lock sections of another
